@@ -348,6 +348,8 @@ pub struct Script {
     pub recipient: String,
     pub next: String,
     pub qkind: String,
+    /// kind of a message the reply handler emits itself ("" = none)
+    pub reply_emits: String,
 }
 
 fn reply_on(m: u8) -> ReplyOn {
@@ -432,6 +434,10 @@ fn t_reply(deps: DepsMut<MyQuery>, env: Env, reply: Reply) -> Result<Response<My
         cosmwasm_std::SubMsgResult::Ok(_) => false,
     };
     log("contract", "reply", "", format!("{} id={} ok={} payload={} cause_visible={}", env.contract.address, reply.id, reply.result.is_ok(), reply.payload, cause));
+    let sc = SCRIPT.with(|s| s.borrow().clone());
+    if !sc.reply_emits.is_empty() {
+        return Ok(Response::new().add_message(msg_of::<MyMsg>(&sc.reply_emits, Some(MyMsg::Ping { n: 7 }), &sc.callee, &sc.recipient)));
+    }
     Ok(Response::new())
 }
 
@@ -465,6 +471,10 @@ fn e_reply(deps: DepsMut, env: Env, reply: Reply) -> Result<Response, StdError> 
         cosmwasm_std::SubMsgResult::Ok(_) => false,
     };
     log("contract", "reply", "", format!("{} id={} ok={} payload={} cause_visible={}", env.contract.address, reply.id, reply.result.is_ok(), reply.payload, cause));
+    let sc = SCRIPT.with(|s| s.borrow().clone());
+    if !sc.reply_emits.is_empty() && sc.reply_emits != "custom" {
+        return Ok(Response::new().add_message(msg_of::<Empty>(&sc.reply_emits, Some(Empty {}), &sc.callee, &sc.recipient)));
+    }
     Ok(Response::new())
 }
 
@@ -573,7 +583,7 @@ fn run_case(ctx: &Ctx, w: &mut RWorld, c: &Case) -> u64 {
         _ => w.user.clone(),
     };
     SCRIPT.with(|s| {
-        *s.borrow_mut() = Script { kind: c.kind.into(), mode: c.mode, with_earlier: c.with_earlier, callee: w.callee.clone(), callee_fails: c.callee_fails, recipient: w.recipient.clone(), next: emitter.clone(), qkind: String::new() }
+        *s.borrow_mut() = Script { kind: c.kind.into(), mode: c.mode, with_earlier: c.with_earlier, callee: w.callee.clone(), callee_fails: c.callee_fails, recipient: w.recipient.clone(), next: emitter.clone(), qkind: String::new(), reply_emits: String::new() }
     });
     let user = Addr::unchecked(&w.user);
     let before = w.app.storage().data.clone();
@@ -1063,6 +1073,52 @@ fn run_multi_case(ctx: &Ctx, w: &mut RWorld, kind: &'static str, fail: bool) -> 
     3
 }
 
+/// The reply handler answers with a message of its own: a sub-message of kind A is refused (or
+/// accepted) by its module, the emitter's reply is told so and emits a message of kind B. B reaches
+/// its module like any other message; a module refusing B aborts the transaction, and the failure
+/// the caller is shown is B's module's, not the one that was already handled.
+fn run_reply_emits_case(ctx: &Ctx, w: &mut RWorld, a: &'static str, a_fails: bool, b: &'static str, b_fails: bool, lifted: bool) -> u64 {
+    *w.app.storage_mut() = w.genesis.clone();
+    w.app.storage_mut().data.retain(|k, _| !k.starts_with(b"module-bookkeeping-"));
+    LOG.with(|l| l.borrow_mut().clear());
+    let bit = |k: &str| 1u32 << MODS.iter().position(|m| *m == module_of(k)).unwrap();
+    FAIL.with(|f| *f.borrow_mut() = (if a_fails { bit(a) } else { 0 }) | (if b_fails { bit(b) } else { 0 }));
+    let emitter = if lifted { w.lifted.clone() } else { w.typed.clone() };
+    SCRIPT.with(|s| *s.borrow_mut() = Script { kind: a.into(), mode: 3, with_earlier: false, callee: w.callee.clone(), callee_fails: false, recipient: w.recipient.clone(), next: emitter.clone(), qkind: String::new(), reply_emits: b.into() });
+    let before = w.app.storage().data.clone();
+    let user = Addr::unchecked(&w.user);
+    let res = catch(|| w.app.execute_contract(user, Addr::unchecked(&emitter), &Cmd { script: 0 }, &[]));
+    FAIL.with(|f| *f.borrow_mut() = 0);
+    let logv: Vec<Rec> = LOG.with(|l| std::mem::take(&mut *l.borrow_mut()));
+    let cj = json!({"engine": "route", "reply_emits": true, "sub_message_kind": a, "its_module_refuses": a_fails, "reply_emits_kind": b, "that_module_refuses": b_fails, "emitter": if lifted { "lifted" } else { "typed" }});
+    let res = match res {
+        Ok(r) => r,
+        Err(p) => {
+            ctx.violation("c17:panic:reply-emits", json!({"case": cj, "panic": p}));
+            return 1;
+        }
+    };
+    // B was handed to its module exactly once, in the emitter's name
+    let want = Rec { module: module_of(b), op: op_of(b), sender: emitter.clone(), payload: payload_of(b, &w.callee, &w.recipient) };
+    if logv.iter().filter(|r| **r == want).count() != 1 {
+        ctx.violation(&format!("c17:routing:{}", b), json!({"case": cj, "expected_exactly_one_record": format!("{:?}", want), "all_records": logv.iter().map(|r| format!("{:?}", r)).collect::<Vec<_>>()}));
+    }
+    if res.is_ok() == b_fails {
+        ctx.violation(&format!("c17:outcome:{}", if b_fails { "module-failure-not-seen" } else { "module-success-not-seen" }), json!({"case": cj, "result": res.as_ref().map(|_| "Ok").map_err(|e| format!("{:#}", e))}));
+    }
+    if let Err(e) = &res {
+        let text = format!("{:#}", e);
+        let names_b = text.contains(&format!("module {} configured to fail", module_of(b)));
+        if b_fails && !names_b {
+            ctx.violation("c17:outcome:caller-shown-another-module's-failure", json!({"case": cj, "error_shown": text, "expected_to_name": format!("module {} configured to fail", module_of(b))}));
+        }
+        if w.app.storage().data != before {
+            ctx.violation("c17:failed-module-left-state", json!({"case": cj}));
+        }
+    }
+    3
+}
+
 fn cases(tier: Tier) -> Vec<Case> {
     let mut v = vec![];
     let masks: Vec<u32> = match tier {
@@ -1143,10 +1199,34 @@ pub fn run_c17(ctx: &Ctx) -> i32 {
         }
         n
     };
-    let n = cs.len() + qcases.len() + stock as usize + hcs.len() + multi_cases;
+    let mut reply_emit_cases = 0usize;
+    let reply_emit_evals: u64 = {
+        let mut w = world();
+        let mut n = 0;
+        let kinds_ab = ["bank", "staking", "gov", "custom", "stargate"];
+        for a in kinds_ab {
+            for b in kinds_ab {
+                if module_of(a) == module_of(b) {
+                    continue;
+                }
+                for (a_fails, b_fails) in [(false, false), (true, false), (false, true), (true, true)] {
+                    for lifted in [false, true] {
+                        if lifted && (a == "custom" || b == "custom") {
+                            continue;
+                        }
+                        n += run_reply_emits_case(ctx, &mut w, a, a_fails, b, b_fails, lifted);
+                        reply_emit_cases += 1;
+                    }
+                }
+            }
+        }
+        n
+    };
+    let n = cs.len() + qcases.len() + stock as usize + hcs.len() + multi_cases + reply_emit_cases;
     let coverage = json!({
         "states": n,
-        "transitions": evals + qevals + stock + helper_evals + multi_evals,
+        "transitions": evals + qevals + stock + helper_evals + multi_evals + reply_emit_evals,
+        "reply_handler_emits_a_message_cases": reply_emit_cases,
         "execute_multi_cases": multi_cases,
         "traces_validated_against_impl": n,
         "evaluations": evals + qevals + stock + helper_evals,
@@ -1170,6 +1250,11 @@ pub fn run_c17(ctx: &Ctx) -> i32 {
 pub fn replay_c17(ctx: &Ctx, case: &Value) {
     let c = &case["case"];
     let mut w = world();
+    if c["reply_emits"].as_bool() == Some(true) {
+        let k = |key: &str| -> &'static str { KINDS.iter().find(|k| Some(**k) == c[key].as_str()).copied().unwrap_or("bank") };
+        run_reply_emits_case(ctx, &mut w, k("sub_message_kind"), c["its_module_refuses"].as_bool().unwrap_or(false), k("reply_emits_kind"), c["that_module_refuses"].as_bool().unwrap_or(false), c["emitter"] == "lifted");
+        return;
+    }
     if c["multi"].as_bool() == Some(true) {
         let kind: &'static str = KINDS.iter().find(|k| Some(**k) == c["message_kind"].as_str()).copied().unwrap_or("bank");
         run_multi_case(ctx, &mut w, kind, c["third_message_module_fails"].as_bool().unwrap_or(false));
